@@ -786,6 +786,9 @@ def e2_cases(ctx, per_class, classes=None, stream="e2"):
         canon = [cls, info["nodes"], info["edges"], json.dumps(info["kwargs"], sort_keys=True, default=str)]
         ctx.case(canon, nontrivial=nontriv, sample=info if i == 0 else None)
         ctx.dist(f"e2:{cls}:{'solved' if nobs.get('solved') else ('exc' if nobs['exc'] else 'unsolved')}")
+        nd_ = sum(1 for _, _, d in G.edges(data=True) if "flow" in d or "len" in d)
+        if nd_:
+            ctx.dist("e2:decoy values on original edges: " + ("all edges" if nd_ == G.number_of_edges() else "some edges"))
         if nobs.get("timeout") or eobs.get("timeout"):
             ctx.count(eng, "skipped_solver_time_limit"); continue
         lp_diff = None
